@@ -27,6 +27,8 @@ pub enum Cmd {
     IncOk,
     IncNonNumeric,
     Keys,
+    /// subscribe to a key: later writes of the same request to that key notify the request's own session
+    Watch { key: String },
     CreateDb { n: u32 },
     /// blank statement (only separators)
     Blank,
@@ -50,7 +52,7 @@ fn gen(rng: &mut Rng, ws: bool) -> Program {
     for _ in 0..n {
         let key = KEYS[rng.below(KEYS.len() as u64) as usize].to_string();
         uniq += 1;
-        cmds.push(match rng.below(20) {
+        cmds.push(match rng.below(22) {
             0 => Cmd::AuthOk,
             1 => Cmd::AuthBad,
             2..=4 => Cmd::UseDbOk,
@@ -66,6 +68,7 @@ fn gen(rng: &mut Rng, ws: bool) -> Program {
             16 => Cmd::IncNonNumeric,
             17 => Cmd::Keys,
             18 => Cmd::CreateDb { n: rng.range(1, 2) as u32 },
+            19 | 20 => Cmd::Watch { key },
             _ => Cmd::Blank,
         });
     }
@@ -89,6 +92,7 @@ fn render(c: &Cmd, side: &str) -> String {
         Cmd::IncOk => "increment n 3".to_string(),
         Cmd::IncNonNumeric => "increment txt 1".to_string(),
         Cmd::Keys => "keys k".to_string(),
+        Cmd::Watch { key } => format!("watch {}", key),
         Cmd::CreateDb { n } => format!("create-db {}new{} tk none", side, n),
         Cmd::Blank => String::new(),
     }
@@ -136,6 +140,7 @@ fn kind(c: &Cmd) -> &'static str {
         Cmd::IncOk => "increment",
         Cmd::IncNonNumeric => "increment-non-numeric",
         Cmd::Keys => "keys",
+        Cmd::Watch { .. } => "watch",
         Cmd::CreateDb { .. } => "create-db",
         Cmd::Blank => "blank",
     }
@@ -300,7 +305,7 @@ impl Property for C20 {
         (20_000, 600_000)
     }
     fn rule(&self) -> &'static str {
-        "bodies of 1-6 statements from {auth ok/bad, use-db ok / bad token / user token with read-only k* permission, get, get-safe, set, set-safe fresh/stale, remove, increment ok/non-numeric, keys, create-db, blank}, over keys incl. a $$ key, with or without trailing ';' and spaces around ';', sent as one HTTP request to the real http_ops worker loop (tiny_http facade) or as one WebSocket frame; the reference is the same command list executed one command at a time by a fresh direct session on a mirrored database set: entry i must equal what command i alone produces (first message, error text, or 'empty'), the entry count must equal the number of non-blank statements, both database sets must end equal (executed once each, in order), and afterwards no connection or watcher of the request's session is left. Non-trivial: a refused command precedes a successful one. distinct = distinct programs."
+        "bodies of 1-6 statements from {auth ok/bad, use-db ok / bad token / user token with read-only k* permission, get, get-safe, set, set-safe fresh/stale, remove, increment ok/non-numeric, keys, watch (later writes of the same request notify its own session), create-db, blank}, over keys incl. a $$ key, with or without trailing ';' and spaces around ';', sent as one HTTP request to the real http_ops worker loop (tiny_http facade) or as one WebSocket frame; the reference is the same command list executed one command at a time by a fresh direct session on a mirrored database set: entry i must equal what command i alone produces (first message, error text, or 'empty'), the entry count must equal the number of non-blank statements, both database sets must end equal (executed once each, in order), and afterwards no connection or watcher of the request's session is left. Non-trivial: a refused command precedes a successful one. distinct = distinct programs."
     }
     fn assumptions(&self) -> Vec<String> {
         vec![
